@@ -336,10 +336,29 @@ MiscCases ==
                   SPrint(<<Bi("split", <<S(<<SP, c_a, SP, SP, c_b>>), V("a"), S(<<SP>>)>>), Idx("a", N(1)), Bi("split", <<S(<<>>), V("a")>>), Bi("alength", <<V("a")>>)>>)>>), <<>>, <<>> >>
   }}
 
+\* ------------------------------------------------------------ F-fracconst
+\* Non-integer constants are outside the numeric model of AwkSem, so no output is predicted for these
+\* programs; what the specification contributes is the EQUIVALENCE: a constant used directly (as a
+\* subscript, a field index, an operand) must behave like the same value held in a variable or spelled
+\* as a computation, whatever CONVFMT / OFMT are.  The harness requires all spellings to print the same.
+FracTexts == {"3.14159", "0.5", "2.50", "1e-1", "100.25", "0.1234567"}
+Fmts == { <<PCT, DOT, D2, c_f>>, <<PCT, DOT, D6, c_g>>, <<PCT, c_d>>, <<PCT, DOT, D1, D0, c_g>> }
+FracProg(use(_), fmt, whichfmt) ==
+  BeginOnly(<<SExpr(Asg(V(whichfmt), S(fmt))), SExpr(Asg(V("x"), use("x"))), SExpr(Asg(Idx("a", use("a")), S(<<c_p>>))),
+              SForIn("q", "a", <<SPrint(<<V("q")>>)>>), SPrint(<<InA(use("i"), "a"), Cc(use("c"), S(<<>>)), use("p")>>),
+              SPrint(<<Bin("==", use("e"), V("x")), Bin("+", use("p"), N(1))>>), SPrint(<<Bi("substr", <<S(<<c_a, c_b, c_c, c_d>>), use("s")>>)>>)>>)
+FracCases ==
+  {[fam |-> "fracconst", mech |-> "const/non-integer/" \o whichfmt, input |-> <<>>, equiv |-> TRUE,
+    prog |-> FracProg(LAMBDA pos : FN(txt), fmt, whichfmt),
+    variants |-> << FracProg(LAMBDA pos : Bin("+", FN(txt), N(0)), fmt, whichfmt),
+                    FracProg(LAMBDA pos : IF pos = "x" THEN FN(txt) ELSE V("x"), fmt, whichfmt),
+                    FracProg(LAMBDA pos : Grp(FN(txt)), fmt, whichfmt) >>]
+   : txt \in FracTexts, fmt \in Fmts, whichfmt \in {"CONVFMT", "OFMT"}}
+
 Cases(fm) ==
   CASE fm = "assign" -> AssignCases [] fm = "cond" -> CondCases [] fm = "loop" -> LoopCases
     [] fm = "concat" -> ConcatCases [] fm = "call" -> CallCases [] fm = "const" -> ConstCases
-    [] fm = "pattern" -> PatternCases [] fm = "flow" -> FlowCases [] fm = "misc" -> MiscCases
+    [] fm = "pattern" -> PatternCases [] fm = "flow" -> FlowCases [] fm = "misc" -> MiscCases [] fm = "fracconst" -> FracCases
 
 AllCases == UNION {Cases(fm) : fm \in Families}
 =============================================================================
